@@ -120,3 +120,24 @@ pub fn replay(args: &Args) -> i32 {
     rep.write(args.req("out"));
     0
 }
+
+/// `cvh replay dims`: Dimensions::contains / len against tla/dt/Dims.tla
+pub fn replay_dims(args: &Args) -> i32 {
+    let mut rep = Report::new();
+    for b in read_ndjson(args.req("in")) {
+        rep.case(&b, true);
+        let g = |k: &str, i: usize| b[k][i].as_u64().unwrap() as u32;
+        let d = calamine::Dimensions::new((g("a", 0), g("a", 1)), (g("b", 0), g("b", 1)));
+        let got = catch(|| (d.contains(g("p", 0), g("p", 1)), d.len()));
+        match got {
+            Ok((c, l)) => {
+                if json!(c) != b["contains"] || json!(l) != b["len"] {
+                    rep.fail("dims", &b, json!({"contains": b["contains"], "len": b["len"]}), json!({"contains": c, "len": l}));
+                }
+            }
+            Err(p) => rep.fail("dims:panic", &b, json!("no panic"), json!(p)),
+        }
+    }
+    rep.write(args.req("out"));
+    0
+}
